@@ -178,8 +178,8 @@ func cmdCheck(args []string) int {
 		fmt.Printf("== %s (%s) %s\n", k.ID, k.Entry, k.Desc)
 		r := runKernel(ld, k, tier, workers, solverKind)
 		results = append(results, r)
-		fmt.Printf("   paths=%d ends=%v forks=%d merges=%d queries=%d witness-hits=%d solver=%.1fs wall=%.1fs viol-candidates=%d\n",
-			r.Stats.Paths, r.Stats.Ends, r.Stats.Forks, r.Stats.Merges, r.Queries, r.Stats.WitnessHits, r.SolverS, r.WallS, len(r.Viols))
+		fmt.Printf("   paths=%d ends=%v forks=%d merges=%d queries=%d witness-hits=%d pin-hits=%d solver=%.1fs wall=%.1fs viol-candidates=%d\n",
+			r.Stats.Paths, r.Stats.Ends, r.Stats.Forks, r.Stats.Merges, r.Queries, r.Stats.WitnessHits, r.Stats.PinHits, r.SolverS, r.WallS, len(r.Viols))
 		var inc []string
 		for m := range r.Incomplete {
 			inc = append(inc, m)
